@@ -1,3 +1,4 @@
+import TxdbusModel.Gen.C09Endpoints
 /-
 C09 - code model of `txdbus/endpoints.py: getDBusEndpoints(reactor, busAddress, client=True)`.
 
@@ -15,9 +16,13 @@ in the order in which `client.connect` will try them.  Mirrors the code as writt
   * nonce-tcp is a tcp endpoint whose args carry `'nonce-tcp': True` (the client never reads the
     nonce file - see notes/C09.md).
 
+The `startswith` chain, the values `kind` is compared with, the three separators and the default
+system address come from `TxdbusModel/Gen/C09Endpoints.lean`, regenerated from the source on every run.
+
 Core Lean only.
 -/
 namespace Txdbus.Client.Endpoints
+open Txdbus.Gen
 
 abbrev Str := List Char
 
@@ -54,7 +59,7 @@ inductive Err
   | keyError         -- tcp entry without host or port
   | unboundLocal     -- unix entry without path/tmpdir/abstract and no earlier path
   | typeError        -- str + True, int(True) are not reachable from the parser; kept explicit
-  | unsupported      -- int() of a string with a non-ASCII character (outside the modelled domain)
+  | unsupported      -- int() of a string with a code point above U+00FF (outside the modelled domain)
 deriving DecidableEq, Repr
 
 inductive Target
@@ -67,26 +72,23 @@ structure Endpoint where
   args : Dict
 deriving DecidableEq, Repr
 
-/-- The local variable `kind`. -/
-inductive Kind
-  | none | unix | tcp | launchd
-deriving DecidableEq, Repr
+/-- The local variable `kind`: None or a string. -/
+abbrev Kind := Option Str
 
-def sUnix : Str := "unix:".toList
-def sTcp : Str := "tcp:".toList
-def sNonce : Str := "nonce-tcp:".toList
-def sLaunchd : Str := "launchd:".toList
+/-- The first branch of the `startswith` chain that applies to `c`. -/
+def matchPrefix (c : Str) : List (Str × Str × Nat × Option Str) → Option (Str × Nat × Option Str)
+  | [] => none
+  | (pre, kind, n, flag) :: t => if pre.isPrefixOf c then some (kind, n, flag) else matchPrefix c t
 
 /-- One pass of the inner loop body over a component `c`. -/
 def component (c : Str) (kind : Kind) (d : Dict) : Except Err (Kind × Dict) :=
   let (kind, c, d) :=
-    if sUnix.isPrefixOf c then (Kind.unix, c.drop 5, d)
-    else if sTcp.isPrefixOf c then (Kind.tcp, c.drop 4, d)
-    else if sNonce.isPrefixOf c then (Kind.tcp, c.drop 10, dictSet "nonce-tcp".toList Val.true d)
-    else if sLaunchd.isPrefixOf c then (Kind.launchd, c.drop 7, d)
-    else (kind, c, d)
-  if c.contains '=' then
-    match splitOn '=' c with
+    match matchPrefix c C09Endpoints.prefixTable with
+    | some (k, n, flag) =>
+      (some k, c.drop n, match flag with | some key => dictSet key Val.true d | none => d)
+    | none => (kind, c, d)
+  if c.contains C09Endpoints.keyValueSep then
+    match splitOn C09Endpoints.keyValueSep c with
     | [k, v] => .ok (kind, dictSet k (.str v) d)
     | _ => .error .valueError
   else .ok (kind, d)
@@ -97,9 +99,10 @@ def components : List Str → Kind → Dict → Except Err (Kind × Dict)
     let (kind, d) ← component c kind d
     components cs kind d
 
+/-- `str.isspace` on code points below 256. -/
 def isAsciiSpace (c : Char) : Bool :=
   c = ' ' || c = '\t' || c = '\n' || c = '\r' || c.toNat = 11 || c.toNat = 12 ||
-  c.toNat = 28 || c.toNat = 29 || c.toNat = 30 || c.toNat = 31
+  c.toNat = 28 || c.toNat = 29 || c.toNat = 30 || c.toNat = 31 || c.toNat = 0x85 || c.toNat = 0xA0
 
 def stripSpace (s : Str) : Str :=
   ((s.dropWhile isAsciiSpace).reverse.dropWhile isAsciiSpace).reverse
@@ -116,9 +119,10 @@ def digitsVal : Str → Bool → Nat → Option Nat
       | c' :: _ => if '0' ≤ c' ∧ c' ≤ '9' then digitsVal cs false acc else none
     else none
 
-/-- Python `int(s)` for ASCII strings (base 10). -/
+/-- Python `int(s)` (base 10) for strings of code points below 256 (none of U+0080..U+00FF is a decimal
+digit; U+0085 and U+00A0 are white space). -/
 def pyInt (s : Str) : Except Err Int :=
-  if s.any (fun c => c.toNat ≥ 128) then .error .unsupported else
+  if s.any (fun c => c.toNat ≥ 256) then .error .unsupported else
   let s := stripSpace s
   let (neg, body) :=
     match s with
@@ -137,8 +141,7 @@ def valStr : Val → Except Err Str
 `path` is the value of the Python variable `path` left by earlier entries.  Returns the new `path`. -/
 def buildEndpoint (pid : Str) (kind : Kind) (d : Dict) (path : Option Str) :
     Except Err (Option Endpoint × Option Str) :=
-  match kind with
-  | .unix => do
+  if kind = some C09Endpoints.unixKind then do
     let path ←
       match dictGet "path".toList d with
       | some v => do let s ← valStr v; pure (some s)
@@ -152,7 +155,7 @@ def buildEndpoint (pid : Str) (kind : Kind) (d : Dict) (path : Option Str) :
     match path with
     | none => .error .unboundLocal
     | some p => .ok (some { target := .unix p, args := d }, some p)
-  | .tcp =>
+  else if kind = some C09Endpoints.tcpKind then
     -- TCP4ClientEndpoint(reactor, d['host'], int(d['port'])): arguments evaluated left to right
     match dictGet "host".toList d with
     | none => .error .keyError
@@ -164,12 +167,12 @@ def buildEndpoint (pid : Str) (kind : Kind) (d : Dict) (path : Option Str) :
         let port ← pyInt ps
         let host ← valStr h
         .ok (some { target := .tcp host port, args := d }, path)
-  | _ => .ok (none, path)
+  else .ok (none, path)
 
 def entries (pid : Str) : List Str → Option Str → Except Err (List Endpoint)
   | [], _ => .ok []
   | e :: es, path => do
-    let (kind, d) ← components (splitOn ',' e) Kind.none []
+    let (kind, d) ← components (splitOn C09Endpoints.componentSep e) none []
     let (ep, path) ← buildEndpoint pid kind d path
     let rest ← entries pid es path
     match ep with
@@ -183,8 +186,6 @@ structure Env where
   pid : Str                -- str(os.getpid())
 deriving Repr
 
-def systemDefault : Str := "unix:path=/var/run/dbus/system_bus_socket".toList
-
 /-- `getDBusEndpoints(reactor, busAddress)` (client side). -/
 def getDBusEndpoints (env : Env) (busAddress : Str) : Except Err (List Endpoint) := do
   let addr ←
@@ -193,9 +194,9 @@ def getDBusEndpoints (env : Env) (busAddress : Str) : Except Err (List Endpoint)
       | some a => pure a
       | none => .error .noSessionEnv
     else if busAddress = "system".toList then
-      pure (env.system.getD systemDefault)
+      pure (env.system.getD C09Endpoints.systemDefault)
     else pure busAddress
-  entries env.pid (splitOn ';' addr) none
+  entries env.pid (splitOn C09Endpoints.entrySep addr) none
 
 /-! ## Spec side: well-formed address lists and their rendering (from the DBus specification:
 entries separated by ';', each `transport:key=value,key=value`). -/
